@@ -8,7 +8,7 @@
    mutexes with their owner, [Acq m] fires only when m is free. *)
 
 From Coq Require Import List String Bool Arith.
-From NR Require Import Model.Skeleton Model.Discipline Proofs.Discipline_proofs.
+From NR Require Import Model.Skeleton Model.Discipline Proofs.Discipline_proofs Proofs.FieldLocks_proofs.
 Import ListNotations.
 Open Scope string_scope.
 Open Scope list_scope.
@@ -65,3 +65,40 @@ Theorem C14_lockset_sound : forall ts0 c,
     i = j.
 Proof. exact C14_lockset_sound_proof. Qed.
 Print Assumptions C14_lockset_sound.
+
+(* Objects that are registered on the model and called by every run (the
+   observers): the translator lists every access of a field of such an object
+   with the object's own mutexes held at that point
+   (Gen/Skeleton_fieldlocks.v); field_conflicts is the pairwise lockset
+   condition on that list.  If it reports nothing, any two accesses of one
+   field, one of them a write, outside the exempted methods (reporting after
+   the solve) hold a common mutex - by C14_mutex_exclusion they are never
+   concurrent.  Oblig/O_C14_fields.v evaluates it on the regenerated list. *)
+Theorem C14_field_lockset_complete : forall (exempt : string -> bool) (l : list faccess),
+  field_conflicts exempt l = [] ->
+  forall a b, In a l -> In b l ->
+    same_field a b = true -> fa_write a = true ->
+    exempt (fa_method a) = false -> exempt (fa_method b) = false ->
+    exists m, In m (fa_locks a) /\ In m (fa_locks b).
+Proof. exact field_lockset_complete_proof. Qed.
+Print Assumptions C14_field_lockset_complete.
+
+(* the same from the reader's side: a read and a write of one field *)
+Theorem C14_field_lockset_read_write : forall (exempt : string -> bool) (l : list faccess),
+  field_conflicts exempt l = [] ->
+  forall a b, In a l -> In b l ->
+    same_field a b = true -> fa_write b = true ->
+    exempt (fa_method a) = false -> exempt (fa_method b) = false ->
+    exists m, In m (fa_locks a) /\ In m (fa_locks b).
+Proof. exact field_lockset_read_write_proof. Qed.
+Print Assumptions C14_field_lockset_read_write.
+
+(* non-vacuity: a consistent table passes (the lock-free reporting method is
+   what the exemption is for), one handler under the wrong mutex is reported
+   from both sides *)
+Theorem C14_field_lockset_example :
+  field_conflicts (String.eqb "Report") fl_good = [] /\
+  field_conflicts (fun _ => false) fl_good = [("obs", "data", "OnA", "Report")] /\
+  field_conflicts (String.eqb "Report") fl_bad = [("obs", "data", "OnA", "OnB"); ("obs", "data", "OnB", "OnA")].
+Proof. exact field_lockset_example_proof. Qed.
+Print Assumptions C14_field_lockset_example.
